@@ -204,7 +204,8 @@ func (m *Model) CheckBlock(parent *Node, b *reftx.Block, powLimitBits uint32, no
 	if int64(b.Time) > now+7200 {
 		return "time-too-new"
 	}
-	if (b.Version < 2 && height >= p.BIP34) || (b.Version < 3 && height >= p.BIP66) || (b.Version < 4 && height >= p.BIP65) {
+	// nVersion is a signed 32-bit integer in Bitcoin: 0x80000000… are negative versions
+	if v := int32(b.Version); (v < 2 && height >= p.BIP34) || (v < 3 && height >= p.BIP66) || (v < 4 && height >= p.BIP65) {
 		return "bad-version"
 	}
 	// structure
